@@ -1,5 +1,6 @@
 import EduceModel.Lemmas.Env
 import EduceModel.Spec.Hash
+import EduceModel.Generated.Templates
 /-
   C05 — hash input is a function of the variant and non-ignored fields only.
 -/
@@ -328,5 +329,18 @@ example : Sem.evalHash exHashOps exHashType (body exHashType) ⟨0, []⟩ = some
 -- fixed-width single writes are prefix-free
 example : PrefixFree (fun x : Nat => [x]) := by
   intro x y r s h; simp at h; simp [h.1]
+
+
+/-! ## What the generated code calls
+
+The absolute paths (`::core::..`) named by the `quote!` templates of the handler, regenerated from /repo/src on every run
+(`vtool extract`): the functions, traits and types the generated code can reach are exactly these - a call of anything
+else (`::core::ptr::eq`, `::core::fmt::Display::fmt`, `::core::convert::From::from`, ...) is a change of what the
+implementation does and has to be looked at. -/
+
+theorem generated_calls_unchanged_hash :
+    Generated.paths_trait_handlers_hash =
+      ["::core::hash::Hash", "::core::hash::Hash::hash", "::core::mem::size_of", "::core::primitive::u8", "::core::slice::from_raw_parts"] := by
+  decide +kernel
 
 end Educe
